@@ -92,9 +92,9 @@ Ltac rd_side := repeat split; rd_nz1.
 Ltac rd_arg :=
   first
   [ reflexivity
-  | solve [ timeout 10 (unfold Rdiv; ring) ]
-  | solve [ timeout 10 (rd_norm; ring) ]
-  | solve [ timeout 20 (field; rd_side) ] ].
+  | solve [ timeout 30 (unfold Rdiv; ring) ]
+  | solve [ timeout 30 (rd_norm; ring) ]
+  | solve [ timeout 60 (field; rd_side) ] ].
 
 Ltac rd_replace a b tac :=
   let H := fresh "rdH" in assert (H : a = b) by tac; rewrite H; clear H.
@@ -161,7 +161,7 @@ Ltac rd_eq :=
   | (apply f_equal; first [ rd_arg | rd_list ])
   | rd_arg ].
 
-Ltac rd_ring_arg := first [ reflexivity | solve [ timeout 10 (unfold Rdiv; ring) ] ].
+Ltac rd_ring_arg := first [ reflexivity | solve [ timeout 30 (unfold Rdiv; ring) ] ].
 
 Ltac rd_cong_inv :=
   repeat match goal with
@@ -176,9 +176,9 @@ Ltac rd_cong_inv :=
 Ltac rd_final :=
   first
   [ reflexivity
-  | solve [ timeout 20 ring ]
-  | solve [ timeout 30 (field; rd_side) ]
-  | solve [ timeout 30 (field_simplify_eq; [ ring | rd_side ]) ] ].
+  | solve [ timeout 60 (unfold Rdiv; ring) ]
+  | solve [ timeout 90 (field; rd_side) ]
+  | solve [ timeout 90 (field_simplify_eq; [ ring | rd_side ]) ] ].
 
 Ltac rd_last :=
   first
@@ -187,15 +187,15 @@ Ltac rd_last :=
 
 Ltac rd_solve_core :=
   first [ reflexivity
-        | solve [ timeout 20 (unfold Rdiv; ring) ]
-        | solve [ rd_norm; first [ reflexivity | solve [ timeout 20 ring ] | solve [ rd_cong_inv; timeout 20 ring ] ] ]
-        | solve [ timeout 30 (field; rd_side) ]
+        | solve [ timeout 60 (unfold Rdiv; ring) ]
+        | solve [ rd_norm; first [ reflexivity | solve [ timeout 60 ring ] | solve [ rd_cong_inv; timeout 60 ring ] ] ]
+        | solve [ timeout 90 (field; rd_side) ]
         | solve [ rd_norm; rd_cong; rd_final ]
         | solve [ rd_cong; rd_final ]
         | rd_last ].
 
 (* the whole portfolio under one budget, so that no generated obligation can stall its shard *)
-Ltac rd_solve := timeout 150 rd_solve_core.
+Ltac rd_solve := timeout 600 rd_solve_core.
 
 (* ================================================================================================ *)
 (* Part 2.  The parser: fuel never runs out, more fuel never changes the answer                      *)
